@@ -612,6 +612,11 @@ func (g *gen) frameSeq(spec *Spec) {
 var clockAtoms = []string{
 	`{"m": $millis()}`,
 	`{"n": $now()}`,
+	// the plain forms are by far the most common in real programs: weight them
+	`{"n": $now()}`,
+	`{"n": $now()}`,
+	`{"m": $millis()}`,
+	`$map([1, 2], function($v){ {"n": $now()} })`,
 	`{"p": $now("` + ClockPicture + `")}`,
 	`{"z5": $now("` + ClockPicture + `", "+0530")}`,
 	`{"m": $toMillis($now())}`,
